@@ -53,7 +53,9 @@ CATALOGUE = [
      "            segAPDU.apduSeq = indx % 255                       # sequence number"),
     ('C05', 'more-follows-off-by-one', 'bacpypes/appservice.py', "            segAPDU.apduMor = (indx < (self.segmentCount - 1)) # more follows",
      "            segAPDU.apduMor = (indx < self.segmentCount) # more follows"),
-    ('C05', 'in-window-le', 'bacpypes/appservice.py', "        rslt = ((seqA - seqB + 256) % 256) < self.actualWindowSize", "        rslt = ((seqA - seqB + 256) % 256) <= self.actualWindowSize"),
+    # ('in-window-le', `<` -> `<=`) was dropped: a correct receiver never acknowledges sequence number initial+window, the two
+    # versions differ only for stale acks of an earlier identical exchange, where an abort is a legitimate outcome anyway
+    ('C05', 'in-window-short', 'bacpypes/appservice.py', "        rslt = ((seqA - seqB + 256) % 256) < self.actualWindowSize", "        rslt = ((seqA - seqB + 256) % 256) < self.actualWindowSize - 1"),
     ('C05', 'client-accepts-out-of-order', 'bacpypes/appservice.py',
      "        # proper segment number\n        if apdu.apduSeq != (self.lastSequenceNumber + 1) % 256:\n            if _debug: ClientSSM._debug(",
      "        # proper segment number\n        if False and apdu.apduSeq != (self.lastSequenceNumber + 1) % 256:\n            if _debug: ClientSSM._debug("),
